@@ -1101,7 +1101,7 @@ def build_struct(target_host: str, banner: Optional['Banner'], kex: Optional['SS
                 if 'ca_key_size' in hostkey_info:
                     ca_size = cast(int, hostkey_info['ca_key_size'])
 
-                if algorithm in HostKeyTest.RSA_FAMILY or algorithm.startswith('ssh-rsa-cert-v0'):
+                if algorithm in HostKeyTest.RSA_FAMILY or algorithm.startswith(('ssh-rsa-cert-v0', 'rsa-sha2-256-cert-v0', 'rsa-sha2-512-cert-v0')):
                     entry['keysize'] = hostkey_size
                 if ca_size > 0:
                     entry['ca_algorithm'] = ca_type
